@@ -51,6 +51,11 @@ _PRECEDENCE = [
     ('load_traits', 'load_servers', 'trait_codes'),
     ('load_traits', 'load_allocations', 'trait_codes'),
     ('load_traits', 'load_apps', 'trait_codes'),
+    # servers register traits the trait list does not name: what encodes
+    # required traits afterwards must see those codes (an unknown required
+    # trait is the unsatisfiable bit, and a recorded placement is refused)
+    ('load_servers', 'load_allocations', 'trait_codes'),
+    ('load_servers', 'load_apps', 'trait_codes'),
     ('load_partitions', 'load_servers', 'partitions'),
     ('load_partitions', 'load_allocations', 'partitions'),
     ('load_buckets', 'load_cell', 'buckets'),
@@ -275,6 +280,32 @@ def _verbatim(ctx, loader):
                'after a server restart schedule-once instances are not '
                'restored; others are placed through the normal leaf '
                'placement')
+        # ... and only schedule-once instances are given up without that
+        # attempt: the outcome local is set to a constant False only under
+        # <instance>.schedule_once (a server that is down - no presence - is
+        # no reason: Server.put does not look at the state, and the
+        # placement of an instance on a down server is kept for its data
+        # retention time)
+        tgt = node.ast.targets[0].id if node.kind == 'stmt' and isinstance(
+            node.ast, ast.Assign) and isinstance(
+                node.ast.targets[0], ast.Name) else None
+        if tgt is None:
+            continue
+        for other in graph.nodes:
+            if other.kind == 'stmt' and isinstance(other.ast, ast.Assign) \
+                    and len(other.ast.targets) == 1 and \
+                    N.txt(other.ast.targets[0]) == tgt and \
+                    isinstance(other.ast.value, ast.Constant) and \
+                    other.ast.value.value is False and \
+                    K.enclosing_for(graph, other) is K.enclosing_for(
+                        graph, node):
+                okf = any(f.key[0] == 'truth' and f.key[2] and
+                          f.key[1] == '%s.schedule_once' % appv
+                          for f in facts[other])
+                ctx.ob('C11.2', func, other, okf,
+                       'a recorded placement is given up without trying the '
+                       'normal placement only for a schedule-once instance',
+                       construct='given up only for schedule-once')
     return func, graph, facts, loop
 
 
